@@ -384,6 +384,13 @@ def menu(fmt):
     add("O31.traj0.orientation", "trajectory[0].orientation=degenerate-interval", lambda s: find(s, "obstacles", 31)["prediction"]["states"][0]["attrs"].__setitem__("orientation", ["aiv", 0.0625, 0.0625]))
     add("PP.goal0.vnarrow", "goal[0].velocity=narrow-interval", lambda s: s["pps"][0]["goal"]["states"][0]["attrs"].__setitem__("velocity", ["iv", 10.0002, 10.0007]))
     add("PP.goal0.vnarrow", "goal[0].orientation=degenerate-interval", lambda s: s["pps"][0]["goal"]["states"][0]["attrs"].__setitem__("orientation", ["aiv", 0.25, 0.25]))
+    # orientation intervals whose ends sit on / next to the ends of the admissible range [-2pi, 2pi] or that span almost a full turn (a written
+    # value rounded outward leaves the range, and the AngleInterval constructor then shifts the whole interval by a turn)
+    import math as _m
+    for lab, lo, hi in (("[pi,2pi]", _m.pi, 2 * _m.pi), ("[-2pi,-pi]", -2 * _m.pi, -_m.pi), ("[-3.14159,3.14159]", -3.14159, 3.14159), ("[2pi-0.3,2pi-0.00004]", 2 * _m.pi - 0.3, 2 * _m.pi - 0.00004),
+                        ("[-2pi+0.00004,-6]", -2 * _m.pi + 0.00004, -6.0), ("[0,6.28318]", 0.0, 6.28318)):
+        add("PP.goal0.vnarrow", f"goal[0].orientation={lab}", lambda s, lo=lo, hi=hi: s["pps"][0]["goal"]["states"][0]["attrs"].__setitem__("orientation", ["aiv", lo, hi]))
+        add("O31.traj0.orientation", f"trajectory[0].orientation={lab}", lambda s, lo=lo, hi=hi: find(s, "obstacles", 31)["prediction"]["states"][0]["attrs"].__setitem__("orientation", ["aiv", lo, hi]))
     add("dynamic.init.velocity", "dynamic.initial_state.velocity=degenerate-interval", lambda s: find(s, "obstacles", 31)["initial_state"]["attrs"].__setitem__("velocity", ["iv", 8.5, 8.5]))
     add("L2.refs", "L2.sign+light-only-in-stop-line(refs-on-L1)", lambda s: (find(s, "lanelets", 2).update(signs=[], lights=[]), find(s, "lanelets", 1).update(signs=[10], lights=[11])))
     add("L2.refs", "L2.light-only-in-stop-line(ref-on-L3)", lambda s: (find(s, "lanelets", 2).update(lights=[]), find(s, "lanelets", 3).update(lights=[11])))
